@@ -763,6 +763,45 @@ def strip_casts_local(n):
     return strip_casts(n)
 
 
+def check_r8(facts, rep, crate):
+    rid = "C20.R8"
+    rep.rule(rid, "borrowed and owned variants are indistinguishable through ==, ordering and hashing: the Eq/Ord/Hash impls of CowBytes "
+                  "compare / hash the byte view only (no discriminant is hashed or compared)")
+    BYTES = ("<[u8] as", "<&[u8] as", "<bytes::Bytes as", "<&[u8; N] as", "<[u8; N] as", "<alloc::vec::Vec<u8> as", "<&'", "<&[u8]")
+    n = 0
+    seen_traits = set()
+    for b in crate.bodies:
+        tr_ = b.j.get("impl_trait") or ""
+        sf = (b.j.get("impl_self") or {}).get("adt", "")
+        if not sf.endswith("CowBytes") or b.name not in ("hash", "eq", "cmp", "partial_cmp"):
+            continue
+        n += 1
+        rep.analysed(b)
+        seen_traits.add(b.name)
+        where = "%s (%s)" % (loc_str(b.loc), b.path)
+        bad = None
+        for bi, t in b.calls():
+            c = callee(t)
+            if not c:
+                continue
+            if c["name"] in ("discriminant_value", "discriminant") and ("intrinsics" in c["def"] or "mem::" in c["def"]):
+                bad = "the enum discriminant is read as a value (%s)" % c["path"][:60]
+            if c["name"] in ("hash", "eq", "ne", "cmp", "partial_cmp", "hash_slice") and not c["path"].startswith(BYTES):
+                bad = "`%s` is applied to something that is not a byte view (%s)" % (c["name"], c["path"][:70])
+        for blk in b.blocks:
+            for st in blk["stmts"]:
+                if st["k"] == "Assign" and st["rv"]["k"] in ("BinaryOp",) and str(st["rv"].get("op")) in ("Eq", "Ne", "Lt", "Le", "Gt", "Ge", "Cmp"):
+                    bad = bad or "a primitive comparison (of discriminants) decides the result"
+        if bad:
+            rep.bad(rid, "%s" % b.path, where, "%s: a borrowed and an owned CowBytes with the same bytes compare/hash differently "
+                                               "(HashMap lookups by the other variant or by &[u8] miss)" % bad)
+        else:
+            rep.ok(rid, "%s" % b.path, where, "byte-view based")
+    rep.floor(rid, "Eq/Ord/Hash impl bodies of CowBytes", n, 6)
+    if "hash" not in seen_traits:
+        rep.bad(rid, "hash-impl", "", "no Hash impl body for CowBytes found")
+
+
 def check(facts, rep, tier, cfg):
     crate = facts.crate("cow_bytes")
     if crate is None:
@@ -775,3 +814,4 @@ def check(facts, rep, tier, cfg):
     check_r5(facts, rep, crate)
     check_r6(facts, rep, crate)
     check_r7(facts, rep, crate)
+    check_r8(facts, rep, crate)
